@@ -48,7 +48,7 @@ def run(tier, seed):
                 it["str"][-2] = "1" if it["str"][-2] != "1" else "2"
                 return k + 1
         return 0
-    seeds = [seed * 1000 + i for i in range(2 if quick else 10)]
+    seeds = [seed * 1000 + i for i in range(2 if quick else 30)]
     vlib.trace_rounds(c, "Trace_X509Time", "x509time", seeds, 3000 if quick else 20000, mut)
     c.cov["rule"] = ("cases = every state of the three X509Time models; non-trivial = distinct case; the native sweep adds every day of "
                      "every (quick: every 53rd) year 1..9999; traces = random times, mutated time strings, windows and 1-20 octet serials")
